@@ -137,6 +137,12 @@ class SymWorld:
         t = self._b(cond)
         self.goals.append(Goal(name, t, getattr(cond, "margin", None), meta, list(self.run.path), nassume=len(self.run.assumptions)))
 
+    def aux_goal(self, name, cond, **meta):
+        """a stepping stone posed over an ARBITRARY pre-state (havocked cut variables): proved = usable link of a chain; a counterexample
+        that the real code does not exhibit means the cut invariant is too weak (inconclusive), never a harness error or an alarm"""
+        self.goal(name, cond, **meta)
+        self.goals[-1].aux = True
+
     def lemma(self, name, cond, **meta):
         """prove cond, then let later goals use it (the assumption is dropped again if the proof does not succeed)"""
         self.goal(name, cond, **meta)
@@ -367,7 +373,7 @@ def _discharge(fn, params, W, g, base, timeout, replay, pathno):
 
             def _small(mdl):
                 return all(abs(v) <= 10 ** 4 for k, v in mdl.items() if "!" not in k and isinstance(v, Fraction))
-            is_lemma = getattr(g, "lemma_index", None) is not None
+            is_lemma = getattr(g, "lemma_index", None) is not None or getattr(g, "aux", False)
             done = False
             if g.margin is not None and W.bounds:
                 # an equality goal: is there a CLEAR violation (difference >= 1/64) for inputs of ordinary size (|v| <= 64)?
@@ -393,7 +399,7 @@ def _discharge(fn, params, W, g, base, timeout, replay, pathno):
                     any(_try(c) for c in cands)
                 if rec["verdict"] == "unconfirmed" and not _small(raw) and not W.nice:
                     _try(raw)
-            if is_lemma and rec["verdict"] == "unconfirmed" and (rec.get("replay") or {}).get("note") == "goal not reached concretely":
+            if is_lemma and rec["verdict"] == "unconfirmed" and ((rec.get("replay") or {}).get("note") == "goal not reached concretely" or getattr(g, "aux", False)):
                 rec["verdict"] = "unknown"
                 rec["reason"] = "lemma not provable (sat), dropped"
         else:
